@@ -73,6 +73,11 @@ fn drain<I: Item + Clone>(side: &mut Side<I>, waker: &Waker) -> (Vec<Vec<VectorD
     }
 }
 
+/// C15 end to end: with a fixed-limit Head / Tail on top, the view never has more than `limit` items,
+/// not even between two diffs of one item
+static BOUND_BROKEN: std::sync::atomic::AtomicBool = std::sync::atomic::AtomicBool::new(false);
+thread_local! { static BOUND: std::cell::Cell<Option<usize>> = const { std::cell::Cell::new(None) }; }
+
 fn apply_item(view: &mut Vector<u32>, app_ok: &mut bool, ds: &[VectorDiff<u32>]) {
     for d in ds {
         if !ok_in(d, view.len()) {
@@ -86,6 +91,11 @@ fn apply_item(view: &mut Vector<u32>, app_ok: &mut bool, ds: &[VectorDiff<u32>])
         }) {
             Some(v2) => *view = v2,
             None => *app_ok = false,
+        }
+        if let Some(b) = BOUND.with(|c| c.get()) {
+            if view.len() > b {
+                BOUND_BROKEN.store(true, std::sync::atomic::Ordering::SeqCst);
+            }
         }
     }
 }
@@ -114,6 +124,11 @@ pub fn run_line(line: &str, out: &mut String) {
         })
         .collect();
     let fixed = stages.iter().all(|s| s.flav == "static" || s.flav == "-");
+    let top = stages.last().unwrap();
+    BOUND.with(|c| {
+        c.set(if top.flav == "static" && (top.kind == "head" || top.kind == "tail") { top.arg.parse().ok() } else { None })
+    });
+    BOUND_BROKEN.store(false, std::sync::atomic::Ordering::SeqCst);
     let ops: Vec<&str> = evs.split(" ; ").map(|s| s.trim()).filter(|s| !s.is_empty()).collect();
     let mut ob: ObservableVector<u32> = ObservableVector::with_capacity(cap);
     ob.append(init.iter().copied().collect());
@@ -134,6 +149,11 @@ pub fn run_line(line: &str, out: &mut String) {
     // every state the vector had between top-level operations
     let mut states: Vec<Vec<u32>> = vec![shadow.clone()];
     let e0 = expected(&stages, &params, &shadow);
+    if let Some(bd) = BOUND.with(|c| c.get()) {
+        if p.view.len() > bd || b.view.len() > bd {
+            BOUND_BROKEN.store(true, std::sync::atomic::Ordering::SeqCst);
+        }
+    }
     out.push_str(&format!(
         "init={} ok:e2einit={}",
         show_vec(p.view.iter()),
@@ -256,5 +276,8 @@ pub fn run_line(line: &str, out: &mut String) {
         }
     }
     let _ = (args, show_ret_opt);
+    if BOUND_BROKEN.load(std::sync::atomic::Ordering::SeqCst) {
+        out.push_str(" ok:e2ebound=0");
+    }
     out.push('\n');
 }
